@@ -169,29 +169,59 @@ def getStripped (d : Data) (k : String) : Except Unit (Option Code) :=
     | .str s => .ok (some (mkCode (pyStrip s)))
     | _ => .error ()
 
+/-- `c.get(k)` when truthy must be a string (it is `.strip()`ped) -/
+def contractPick (c : Data) (k : String) : Except Unit (Option String) :=
+  match c.get? k with
+  | some v => if v.truthy then (match v with | .str s => .ok (some s) | _ => .error ()) else .ok none
+  | none => .ok none
+
+/-- one element of `d.get('contract', [])` -/
+def contractStep (acc : List Code × List Code × List Code) (c : Data) :
+    Except Unit (List Code × List Code × List Code) :=
+  match c with
+  | .map _ =>
+    match contractPick c "before" with
+    | .error e => .error e
+    | .ok (some s) => .ok (acc.1 ++ [mkCode (pyStrip s)], acc.2.1, acc.2.2)
+    | .ok none =>
+      match contractPick c "after" with
+      | .error e => .error e
+      | .ok (some s) => .ok (acc.1, acc.2.1 ++ [mkCode (pyStrip s)], acc.2.2)
+      | .ok none =>
+        match contractPick c "always" with
+        | .error e => .error e
+        | .ok (some s) => .ok (acc.1, acc.2.1, acc.2.2 ++ [mkCode (pyStrip s)])
+        | .ok none => .ok acc
+  | _ => .error ()
+
+def contractLoop : List Data → List Code × List Code × List Code → Except Unit (List Code × List Code × List Code)
+  | [], acc => .ok acc
+  | c :: cs, acc =>
+    match contractStep acc c with
+    | .error e => .error e
+    | .ok acc' => contractLoop cs acc'
+
 /-- the loops over `d.get('contract', [])` -/
 def importContract (d : Data) : Except Unit (List Code × List Code × List Code) :=
   match d.get? "contract" with
   | none => .ok ([], [], [])
-  | some (.list l) =>
-    l.foldlM (fun (acc : List Code × List Code × List Code) c =>
-      match c with
-      | .map _ =>
-        let pick (k : String) : Except Unit (Option String) :=
-          match c.get? k with
-          | some v => if v.truthy then (match v with | .str s => .ok (some s) | _ => .error ()) else .ok none
-          | none => .ok none
-        do
-          match (← pick "before") with
-          | some s => pure (acc.1 ++ [mkCode (pyStrip s)], acc.2.1, acc.2.2)
-          | none =>
-            match (← pick "after") with
-            | some s => pure (acc.1, acc.2.1 ++ [mkCode (pyStrip s)], acc.2.2)
-            | none =>
-              match (← pick "always") with
-              | some s => pure (acc.1, acc.2.1, acc.2.2 ++ [mkCode (pyStrip s)])
-              | none => pure acc
-      | _ => .error ()) ([], [], [])
+  | some (.list l) => contractLoop l ([], [], [])
+  | some _ => .error ()
+
+def importPriority (d : Data) : Except Unit Int :=
+  match d.get? "priority" with
+  | none => .ok 0
+  | some .null => .ok 0
+  | some (.str "low") => .ok (-1)
+  | some (.str "high") => .ok 1
+  | some (.int i) => .ok i
+  | some _ => .error ()         -- outside the model (a non-int priority object)
+
+def importTarget (d : Data) : Except Unit (Option Name) :=
+  match d.get? "target" with
+  | none => .ok none
+  | some .null => .ok none
+  | some (.str s) => .ok (some s)
   | some _ => .error ()
 
 /-- `_import_transition_from_dict(state_name, transition_d)`; `.error ()` = any exception
@@ -202,22 +232,53 @@ def importTransition (src : Name) (d : Data) : Except Unit Trans :=
     let event ← getStripped d "event"
     let guard ← getStripped d "guard"
     let action ← getStripped d "action"
-    let prio : Int ← match d.get? "priority" with
-      | none => pure 0
-      | some .null => pure 0
-      | some (.str "low") => pure (-1)
-      | some (.str "high") => pure 1
-      | some (.int i) => pure i
-      | some _ => .error ()         -- outside the model (a non-int priority object)
-    let target ← match d.get? "target" with
-      | none => pure none
-      | some .null => pure none
-      | some (.str s) => pure (some s)
-      | some _ => .error ()
+    let prio ← importPriority d
+    let target ← importTarget d
     let (pre, post, inv) ← importContract d
     pure { id := 0, source := src, target := target, event := event.map (·.src), guard := guard,
            action := action, priority := prio, pre := pre, post := post, inv := inv }
   | _ => .error ()
+
+/-- `getStripped` inside `_import_state_from_dict`: an exception there is not a `StatechartError` -/
+def stripField (d : Data) (k : String) : Except IOErr (Option Code) :=
+  match getStripped d k with
+  | .ok v => .ok v
+  | .error _ => .error .other
+
+/-- `state_d.get(k, None)` used as a state name -/
+def optNameAt (d : Data) (k : String) : Except IOErr (Option String) :=
+  match d.get? k with
+  | none => .ok none
+  | some .null => .ok none
+  | some (.str s) => .ok (some s)
+  | some _ => .error .other
+
+def truthyAt (d : Data) (k : String) : Bool :=
+  match d.get? k with
+  | some v => v.truthy
+  | none => false
+
+/-- the `if`/`elif` chain choosing the class of the state -/
+def importKind (d : Data) (name : Name) (onEntry onExit : Option Code) : Except IOErr StateDef :=
+  match d.get? "type" with
+  | some (.str "final") => .ok { name := name, kind := .final, onEntry := onEntry, onExit := onExit }
+  | some (.str "shallow history") =>
+    match optNameAt d "memory" with
+    | .error e => .error e
+    | .ok m => .ok { name := name, kind := .shallow, onEntry := onEntry, onExit := onExit, memory := m }
+  | some (.str "deep history") =>
+    match optNameAt d "memory" with
+    | .error e => .error e
+    | .ok m => .ok { name := name, kind := .deep, onEntry := onEntry, onExit := onExit, memory := m }
+  | none | some .null =>
+    if truthyAt d "states" then
+      match optNameAt d "initial" with
+      | .error e => .error e
+      | .ok i => .ok { name := name, kind := .compound, onEntry := onEntry, onExit := onExit, initial := i }
+    else if truthyAt d "parallel states" then
+      .ok { name := name, kind := .orthogonal, onEntry := onEntry, onExit := onExit }
+    else .ok { name := name, kind := .basic, onEntry := onEntry, onExit := onExit }
+  | some _ => .error .statechart                     -- unknown type
 
 /-- `_import_state_from_dict(state_d)`: `.error .statechart` is raised as such, `.error .other`
     is any other exception (wrapped into `StatechartError` by the caller) -/
@@ -225,43 +286,21 @@ def importState (d : Data) : Except IOErr StateDef :=
   match d with
   | .map _ =>
     match d.get? "name" with
-    | none => .error .other                                   -- KeyError
-    | some nameD =>
-      match nameD with
-      | .str name =>
-        let strip (k : String) : Except IOErr (Option Code) :=
-          match getStripped d k with
-          | .ok v => .ok v
-          | .error _ => .error .other
-        do
-          let onEntry ← strip "on entry"
-          let onExit ← strip "on exit"
-          let optS (k : String) : Except IOErr (Option String) :=
-            match d.get? k with
-            | none => .ok none
-            | some .null => .ok none
-            | some (.str s) => .ok (some s)
-            | some _ => .error .other
-          let both := (match d.get? "states" with | some v => v.truthy | none => false) &&
-                      (match d.get? "parallel states" with | some v => v.truthy | none => false)
-          if both then throw .statechart
-          let st : StateDef ← match d.get? "type" with
-            | some (.str "final") => pure { name := name, kind := .final, onEntry := onEntry, onExit := onExit }
-            | some (.str "shallow history") =>
-              pure { name := name, kind := .shallow, onEntry := onEntry, onExit := onExit, memory := (← optS "memory") }
-            | some (.str "deep history") =>
-              pure { name := name, kind := .deep, onEntry := onEntry, onExit := onExit, memory := (← optS "memory") }
-            | none | some .null =>
-              if (match d.get? "states" with | some v => v.truthy | none => false) then
-                pure { name := name, kind := .compound, onEntry := onEntry, onExit := onExit, initial := (← optS "initial") }
-              else if (match d.get? "parallel states" with | some v => v.truthy | none => false) then
-                pure { name := name, kind := .orthogonal, onEntry := onEntry, onExit := onExit }
-              else pure { name := name, kind := .basic, onEntry := onEntry, onExit := onExit }
-            | some _ => throw .statechart                     -- unknown type
-          match importContract d with
-          | .ok (pre, post, inv) => pure { st with pre := pre, post := post, inv := inv }
-          | .error _ => throw .other
-      | _ => .error .other
+    | some (.str name) =>
+      match stripField d "on entry" with
+      | .error e => .error e
+      | .ok onEntry =>
+        match stripField d "on exit" with
+        | .error e => .error e
+        | .ok onExit =>
+          if truthyAt d "states" && truthyAt d "parallel states" then .error .statechart else
+          match importKind d name onEntry onExit with
+          | .error e => .error e
+          | .ok st =>
+            match importContract d with
+            | .ok (pre, post, inv) => .ok { st with pre := pre, post := post, inv := inv }
+            | .error _ => .error .other
+    | _ => .error .other                                      -- KeyError / not a string
   | _ => .error .other
 
 /-- the work list of `import_from_dict` (`data_to_consider.pop()` takes the *last* element) -/
@@ -364,12 +403,14 @@ def exportContract (pre post inv : List Code) : List (String × Data) :=
                        post.map (fun c => Data.map [("after", .str c.src)]) ++
                        inv.map (fun c => Data.map [("always", .str c.src)])))]
 
+def exportPriority (p : Int) : List (String × Data) :=
+  if p != 0 then
+    [("priority", if p == -1 then .str "low" else if p == 1 then .str "high" else .int p)]
+  else []
+
 def exportTransition (t : Trans) : Data :=
   .map (optField "event" t.event ++ optField "guard" (t.guard.map (·.src)) ++ optField "target" t.target ++
-        optField "action" (t.action.map (·.src)) ++
-        (if t.priority != 0 then
-           [("priority", if t.priority == -1 then .str "low" else if t.priority == 1 then .str "high" else .int t.priority)]
-         else []) ++
+        optField "action" (t.action.map (·.src)) ++ exportPriority t.priority ++
         exportContract t.pre t.post t.inv)
 
 /-- `_export_state_to_dict` (recursion on the tree, with fuel) -/
